@@ -431,6 +431,7 @@ type filterCfg struct {
 type system struct {
 	sv    *servant
 	prx   any
+	comm  *tars.Communicator
 	flog  *[]string
 	iface *Iface
 }
@@ -459,7 +460,14 @@ func setup(i *Iface, fc filterCfg, pool int32) *system {
 	comm := tars.VerifNewCommunicator(tars.VerifClientOpts{KeepApp: true, AsyncInvokeTimeout: 2000, ReadTimeout: 3 * time.Second, CheckStatusInterval: 60000})
 	prx := i.NewProxy()
 	comm.StringToProxy("App.Srv.Obj@tcp -h 127.0.0.1 -p 9400 -t 60000", prx.(tars.ProxyPrx))
-	return &system{sv: sv, prx: prx, flog: flog, iface: i}
+	return &system{sv: sv, prx: prx, flog: flog, iface: i, comm: comm}
+}
+
+// anotherProxy returns a further proxy object for the same remote object on the same communicator.
+func (sys *system) anotherProxy() any {
+	prx := sys.iface.NewProxy()
+	sys.comm.StringToProxy("App.Srv.Obj@tcp -h 127.0.0.1 -p 9400 -t 60000", prx.(tars.ProxyPrx))
+	return prx
 }
 
 func installFilters(fc filterCfg, flog *[]string) {
